@@ -46,8 +46,10 @@ func (r *Router) proxy(w http.ResponseWriter, req *http.Request) {
 	// ok, we got a response, let's pass it along
 	defer resp.Body.Close()
 	// copy over headers
+	// keep repeated header lines as they are: joining them with commas corrupts
+	// headers such as Set-Cookie whose values may not be combined
 	for header, vals := range resp.Header {
-		w.Header().Set(header, strings.Join(vals, ","))
+		w.Header()[header] = vals
 	}
 	// copy over status code
 	w.WriteHeader(resp.StatusCode)
